@@ -5,21 +5,29 @@
 
    FULL STATEMENT AIMED AT (DESIGN C05, "from_opchains_den"):
      forall cover chains L idn, wf_chains L chains = true -> (1 <= L) ->
-       calls_okb cover L (initial state) = true ->          (* the cover answers actually issued are vertex covers *)
+       covers_ok cover chains L idn = true ->               (* the cover answers actually issued are valid covers *)
        exists g, from_opchains cover chains L idn = Ok g /\ is_consistent g /\ glength g = Some L /\
                  forall w, den g w = chains_den L idn chains w.
-   PROVED BELOW for all inputs: the last clause for EVERY run that returns a graph, for every cover oracle whatsoever
-   (C05_chains_den_rev; with the boolean linkage check [linked g], C05_chains_den for the forward meaning [den]),
-   and everything about from_opgraph.
-   NOT PROVED (validated on every generated case by the correspondence check: the implementation succeeds, the model
-   returns the identical graph, and [is_consistent_fuel], [glength g = L], [linked g] evaluate to true in Coq):
-     - success ([Ok]) of from_opchains under valid covers and wf_chains (that no assert fires);
-     - is_consistent g, glength g = Some L and linked g for the returned graph;
-     - that node charges along every path are the chain's interleaved charges. *)
+   PROVED BELOW for all inputs:
+     - C05_from_opchains_ok_partial: under wf_chains and covers_ok the model returns a graph g (no assertion fires), g passes the
+       linkage check [linked] (unique ids, duplicate-free edge-id lists, node <-> edge cross references in both directions,
+       terminals present: everything is_consistent checks except levels / empty terminal lists / sorted opics), and
+       den g = sum of the padded chains;  C05_from_opchains_ok_model: the same with the PROVED model of minimum_vertex_cover
+       (C18_mvc_total) and no cover hypothesis at all;
+     - C05_chains_den_full / C05_chains_den_rev: the meaning clause for EVERY run returning a graph, for every cover oracle;
+     - everything about from_opgraph.
+   [cover_okb] asks for a valid duplicate-free cover and, when the bipartite graph has one V vertex (the last site), size <= 1
+   (any minimum cover): with a valid but non-minimum cover at the last site the code's [assert len(vlist_next) == 1] fires.
+   NOT PROVED (validated on every generated case by the correspondence check, evaluated in Coq):
+     - the level part of is_consistent (every node on a single level), empty edge lists at the terminals, sorted opics
+       — the cross-reference part IS proved ([linked]) —, and glength g = Some L;
+     - that node charges along every path are the chain's interleaved charges (the charge assertions of the code are
+       modelled and proved never to fire under wf_chains: part of C05_from_opchains_ok_partial). *)
 From Coq Require Import ZArith List Bool Lia Sorted.
 From PT Require Import Base.Scalar Base.BigSum Base.Mx Model.OpGraph Model.Tensor Model.FromOpchains Model.GraphMPO
                        Proofs.FromOpchainsPart Proofs.GraphMPOSem Proofs.DenRev_C05 Proofs.PampDen_C05
-                       Proofs.FromOpchainsThm Proofs.C05Final.
+                       Proofs.FromOpchainsThm Proofs.C05Final Proofs.FromOpchainsOk3 Proofs.FromOpchainsCover
+                       Proofs.FromOpchainsWF3 Proofs.C05Total.
 Import ListNotations.
 Open Scope Z_scope.
 
@@ -42,6 +50,30 @@ Theorem C05_chains_den : forall (R : cring) cover (chains : list (chain R)) L id
   forall w, den g w = chains_den L idn chains w.
 Proof. exact from_opchains_den. Qed.
 Print Assumptions C05_chains_den.
+
+(* first clause of the property: construction succeeds and is correct, under valid cover answers on the issued calls *)
+Theorem C05_from_opchains_ok_partial : forall (R : cring) cover (chains : list (chain R)) L idn,
+  wf_chains L chains = true -> covers_ok R cover chains L idn = true -> (1 <= L)%nat ->
+  exists g, from_opchains cover chains L idn = Ok g /\ linked g = true /\ forall w, den g w = chains_den L idn chains w.
+Proof. exact from_opchains_total. Qed.
+Print Assumptions C05_from_opchains_ok_partial.
+
+(* the same with the proved model of minimum_vertex_cover: no hypothesis on the cover *)
+Theorem C05_from_opchains_ok_model : forall (R : cring) (chains : list (chain R)) L idn,
+  wf_chains L chains = true -> (1 <= L)%nat ->
+  exists g, from_opchains cover_model chains L idn = Ok g /\ linked g = true /\ forall w, den g w = chains_den L idn chains w.
+Proof. exact from_opchains_total_model. Qed.
+Print Assumptions C05_from_opchains_ok_model.
+
+Theorem C05_cover_model_good : cover_good cover_model.
+Proof. exact cover_model_good. Qed.
+Print Assumptions C05_cover_model_good.
+
+(* every returned graph is linked, and its forward meaning is the chain sum: no side condition *)
+Theorem C05_chains_den_full : forall (R : cring) cover (chains : list (chain R)) L idn g, (1 <= L)%nat ->
+  from_opchains cover chains L idn = Ok g -> linked g = true /\ forall w, den g w = chains_den L idn chains w.
+Proof. exact from_opchains_den_full. Qed.
+Print Assumptions C05_chains_den_full.
 
 (* the regrouping lemma of the site partition (first-occurrence indexing, gamma accumulation) *)
 Theorem C05_site_partition_regroup : forall (R : cring) (hcs : list (hchain * R)) (F : unode -> hchain -> R),
@@ -96,7 +128,7 @@ Definition ex_chains : list (chain Zring) :=
   [@mkchain Zring [1;2] [0;0;0] 2 0%nat; @mkchain Zring [1;3] [0;0;0] (-1) 0%nat; @mkchain Zring [2] [0;0] 3 1%nat;
    @mkchain Zring [1;2] [0;0;0] 5 0%nat; @mkchain Zring [0;3] [0;0;0] 4 0%nat; @mkchain Zring [0;3] [0;0;0] (-4) 0%nat].
 Example C05_nonvacuous_chains :
-  wf_chains 2 ex_chains = true /\
+  wf_chains 2 ex_chains = true /\ covers_ok Zring cover_model ex_chains 2 0 = true /\
   calls_okb cover_model 2 (mkst init_graph 1 0 (init_next 0 (filter nonzero ex_chains)) []) = true /\
   match from_opchains cover_model ex_chains 2 0 with
   | Ok g => linked g = true /\ is_consistent_fuel 200 g = Some true /\ glength g = Some 2%nat /\
